@@ -290,7 +290,7 @@ class PeriodicGrid(Grid):
         # Compute the fractional coordinates, which are only used temporarily.
         # They are not stored as an attribute.
         if points.ndim == 1:
-            frac_points = points * recivecs
+            frac_points = points * recivecs if recivecs.size > 0 else np.zeros((points.size, 0))
         else:
             frac_points = points @ recivecs.T
         # Wrap the points back into the primitive cell, in case this was asked.
@@ -305,7 +305,7 @@ class PeriodicGrid(Grid):
         # Compute the minimal and maximal values of the fractional coordinates.
         # These are the intervals spanned by the fractional coordinates along
         # each lattice vector: ``frac_intvls``.
-        if points.ndim == 1:
+        if points.ndim == 1 and realvecs.size > 0:
             frac_intvls = np.array([[frac_points.min(), frac_points.max()]])
         else:
             frac_intvls = np.array([frac_points.min(axis=0), frac_points.max(axis=0)]).T
